@@ -5,6 +5,7 @@ use vstd::std_specs::cmp::{PartialEqSpec, PartialOrdSpec, OrdSpec};
 use vstd::std_specs::iter::IteratorSpec;
 use crate::num::rational::{BigRational, rat_cmp, rat_zero, rat_add_one, rat_sub_one, rat_mid, axiom_rational_order};
 use crate::spec::*;
+use crate::stdx5::DynIter;
 verus! {
 
 //@extract fn src/identifier.rs "" rational_between
@@ -123,19 +124,234 @@ impl<T: Clone + Ord + Eq> Identifier<T> {
     }
 //@end
 
-    // OUT OF REACH: `between` walks two `Box<dyn Iterator>` paths (trait objects are outside Verus).  Contract assumed,
-    // bounded stand-in `identifier_between` in the replay crate (C14 density: reported as bounded, never as proved).
-    #[verifier::external_body]
-    pub fn between(low: Option<&Self>, high: Option<&Self>, marker: T) -> (r: Self)
-        ensures
-            ord_ok::<T>() ==> {
-                &&& (low is Some && high is Some && id_cmp(low->0@, high->0@) == Ordering::Less ==> id_cmp(low->0@, r@) == Ordering::Less && id_cmp(r@, high->0@) == Ordering::Less)
-                &&& (low is Some && high is Some && id_cmp(low->0@, high->0@) == Ordering::Greater ==> id_cmp(high->0@, r@) == Ordering::Less && id_cmp(r@, low->0@) == Ordering::Less)
-                &&& (low is Some && low->0@.len() > 0 && high is None ==> id_cmp(low->0@, r@) == Ordering::Less)
-                &&& (low is None && high is Some && high->0@.len() > 0 ==> id_cmp(r@, high->0@) == Ordering::Less)
-                &&& (!(low is Some && high is Some && id_cmp(low->0@, high->0@) == Ordering::Equal) ==> r@.len() > 0 && r@.last().1 == marker)
-            },
-    { unimplemented!() }
+//@extract fn src/identifier.rs "Identifier" between
+    pub fn between(low: Option<&Self>, high: Option<&Self>, marker: T) -> /*@ (r: @*/ Self /*@ ) @*/
+    //@ requires between_ok::<T>(),
+    //@ ensures between_post(low, high, marker, r),
+    //@ decreases (if low is Some && high is Some && id_cmp(low->0@, high->0@) == Ordering::Greater { 1int } else { 0int }),
+    {
+        //@ proof { axiom_rational_order(); lemma_ord_ok::<T>(); lemma_ord_ok::<(BigRational, T)>(); }
+        //@ let ghost mk0 = marker;
+        match (low, high) {
+            (Some(low), Some(high)) => {
+                //@ proof { c14_antisymmetric(low@, high@); }
+                match low.cmp(high) {
+                    Ordering::Greater => return Self::between(Some(high), Some(low), marker),
+                    Ordering::Equal => return high.clone(),
+                    _ => (),
+                }
+
+                // Walk both paths until we reach a fork, constructing the path between these
+                // two entries as we go.
+
+                let mut path: Vec<(BigRational, T)> = vec![];
+
+                let mut low_path: /*@ DynIter<(BigRational, T)> @*/ /*@<*/ Box<dyn std::iter::Iterator<Item = &(BigRational, T)>> /*@>*/ =
+                    /*@ DynIter::over(& @*/ /*@<*/ Box::new( /*@>*/ low.0 /*@<*/ .iter()) /*@>*/ /*@ ) @*/ ;
+                let mut high_path: /*@ DynIter<(BigRational, T)> @*/ /*@<*/ Box<dyn std::iter::Iterator<Item = &(BigRational, T)>> /*@>*/ =
+                    /*@ DynIter::over(& @*/ /*@<*/ Box::new( /*@>*/ high.0 /*@<*/ .iter()) /*@>*/ /*@ ) @*/ ;
+                //@ let ghost lo = low@; let ghost hi = high@; let ghost mk = marker;
+                //@ let ghost mut div = false; let ghost mut d: int = 0;
+                loop
+                //@ invariant_except_break
+                //@     between_ok::<T>(), id_cmp(lo, hi) == Ordering::Less, marker == mk,
+                //@     path@.len() <= hi.len(), high_path.rest() == hi.skip(path@.len() as int),
+                //@     forall|k: int| 0 <= k < path@.len() ==> #[trigger] path@[k] == hi[k],
+                //@     !div ==> path@.len() <= lo.len() && low_path.rest() == lo.skip(path@.len() as int) && forall|k: int| 0 <= k < path@.len() ==> eqv(#[trigger] lo[k], hi[k]),
+                //@     div ==> low_path.rest() == Seq::<(BigRational, T)>::empty() && 0 <= d < path@.len() && decided_less(lo, path@, d),
+                //@ ensures between_two(lo, hi, mk, path@),
+                //@ decreases hi.len() - path@.len(),
+                {
+                    //@ let ghost i = path@.len() as int; let ghost p0 = path@;
+                    //@ proof { axiom_rational_order(); lemma_ord_ok::<T>(); lemma_ord_ok::<(BigRational, T)>(); }
+                    match (low_path.next(), high_path.next()) {
+                        (Some( /*@ ln @*/ /*@<lnp*/ (l_ratio, l_m) /*@>*/ ), Some( /*@ hn @*/ /*@<hnp*/ (h_ratio, h_m) /*@>*/ )) if /*@ ln.0 == hn.0 @*/ /*@<*/ l_ratio == h_ratio /*@>*/ => {
+                            //@ let $lnp = ln; let $hnp = hn;
+                            //@ proof { assert(!div); assert(*ln == lo[i] && *hn == hi[i]); assert(*l_ratio == *h_ratio); lemma_common_prefix_le(lo, hi, i); lemma_node_cmp(lo[i], hi[i]); }
+                            if l_m < &marker && &marker < h_m {
+                                // The marker fits between the low and high marker
+                                //@ let hrc = h_ratio.clone();
+                                path.push((/*@ hrc @*/ /*@<*/ h_ratio.clone() /*@>*/ , marker));
+                                //@ proof { lemma_node_cmp(lo[i], path@[i]); lemma_node_cmp(path@[i], hi[i]); assert forall|k: int| 0 <= k < i implies path@[k] == p0[k] by { } lemma_fork(lo, hi, path@, i); }
+                                break;
+                            } else if l_m == h_m {
+                                // We are on a common prefix of the two paths, copy it over
+                                // to our output path and continue till we reach a fork.
+                                //@ let hrc = h_ratio.clone(); let hmc = h_m.clone();
+                                path.push((/*@ hrc @*/ /*@<*/ h_ratio.clone() /*@>*/ , /*@ hmc @*/ /*@<*/ h_m.clone() /*@>*/ ));
+                                //@ proof { assert(cloned(*h_m, hmc)); assert(hmc == *h_m); assert(hrc == *h_ratio); assert(*hn == hi[i]); assert(path@[i] == (hrc, hmc)); assert(path@[i] == hi[i]); assert forall|k: int| 0 <= k < path@.len() implies #[trigger] path@[k] == hi[k] by { if k < i { assert(path@[k] == p0[k]); } } assert(eqv(lo[i], hi[i])); assert(hi.skip(i).drop_first() =~= hi.skip(i + 1)); assert(lo.skip(i).drop_first() =~= lo.skip(i + 1)); }
+                            } else {
+                                // Otherwise, the two paths have diverged.
+                                // Choose one path and clear out the other.
+                                //@ let hrc = h_ratio.clone(); let hmc = h_m.clone();
+                                path.push((/*@ hrc @*/ /*@<*/ h_ratio.clone() /*@>*/ , /*@ hmc @*/ /*@<*/ h_m.clone() /*@>*/ ));
+                                low_path = /*@ DynIter::empty() @*/ /*@<*/ Box::new(std::iter::empty()) /*@>*/ ;
+                                //@ proof { assert(cloned(*h_m, hmc)); assert(hmc == *h_m); assert(hrc == *h_ratio); assert(*hn == hi[i]); assert(path@[i] == (hrc, hmc)); assert(path@[i] == hi[i]); assert forall|k: int| 0 <= k < path@.len() implies #[trigger] path@[k] == hi[k] by { if k < i { assert(path@[k] == p0[k]); } } assert(hi.skip(i).drop_first() =~= hi.skip(i + 1)); assert(lt(lo[i], hi[i])); div = true; d = i; assert(decided_less(lo, path@, i)) by { assert forall|k: int| 0 <= k < i implies eqv(#[trigger] lo[k], path@[k]) by { assert(path@[k] == hi[k]); } } }
+                            }
+                        }
+                        (low_node, high_node) => {
+                            //@ let ghost lnv: Option<(BigRational, T)> = match low_node { Some(n) => Some(*n), None => None };
+                            //@ let ghost hnv: Option<(BigRational, T)> = match high_node { Some(n) => Some(*n), None => None };
+                            path.push((
+                                rational_between(low_node.map(|n /*@ : &(BigRational, T) @*/ | /*@ -> (o: &BigRational) ensures *o == n.0 { @*/ &n.0 /*@ } @*/ ), high_node.map(|n /*@ : &(BigRational, T) @*/ | /*@ -> (o: &BigRational) ensures *o == n.0 { @*/ &n.0 /*@ } @*/ )),
+                                marker,
+                            ));
+                            //@ proof { assert forall|k: int| 0 <= k < i implies path@[k] == p0[k] by { } if div { assert(decided_less(lo, path@, d)) by { assert forall|k: int| 0 <= k <= d implies path@[k] == p0[k] by { } } } lemma_second_arm(lo, hi, mk, path@, i, div, d, lnv, hnv); }
+                            break;
+                        }
+                    }
+                }
+                //@ proof { assert(between_two(lo, hi, mk, path@)); }
+                Self(path)
+            }
+
+            (low, high) => /*@ { let r0 = @*/ /*@<*/ Self(vec![( /*@>*/
+                rational_between(
+                    low.and_then(|low_entry /*@ : &Self @*/ | /*@ -> (o: Option<&BigRational>) ensures (o is Some <==> low_entry@.len() > 0), (o is Some ==> *o->0 == low_entry@[0].0) { @*/ low_entry.0.first().map( /*@<*/ | /*@>*/ /*@<fp1*/ (r, _) /*@>*/ /*@<*/ | /*@>*/ /*@ |p: &(BigRational, T)| -> (q: &BigRational) ensures *q == p.0 { let $fp1 = p; @*/ r /*@ } @*/ ) /*@ } @*/ ),
+                    high.and_then(|high_entry /*@ : &Self @*/ | /*@ -> (o: Option<&BigRational>) ensures (o is Some <==> high_entry@.len() > 0), (o is Some ==> *o->0 == high_entry@[0].0) { @*/ high_entry.0.first().map( /*@<*/ | /*@>*/ /*@<fp2*/ (r, _) /*@>*/ /*@<*/ | /*@>*/ /*@ |p: &(BigRational, T)| -> (q: &BigRational) ensures *q == p.0 { let $fp2 = p; @*/ r /*@ } @*/ ) /*@ } @*/ ),
+                ) /*@ ; let mut v0: Vec<(BigRational, T)> = Vec::new(); v0.push((r0 @*/ ,
+                marker,
+            ) /*@<*/ ]) /*@>*/ /*@ ); let res = Self(v0); proof { lemma_one_bound(low, high, mk0, res@); } res } @*/ ,
+        }
+    }
+//@end
+}
+
+/// node order is lexicographic: rational first, marker second (vstd's tuple order)
+pub proof fn lemma_node_cmp<T: Ord>(x: (BigRational, T), y: (BigRational, T))
+    ensures x.cmp_spec(&y) == (match rat_cmp(x.0, y.0) { Ordering::Equal => x.1.cmp_spec(&y.1), o => o }),
+{}
+
+/// paths that agree (up to node equivalence) on their first i nodes compare like their remainders
+pub proof fn lemma_cmp_skip<T: Ord>(a: Seq<(BigRational, T)>, b: Seq<(BigRational, T)>, i: int)
+    requires 0 <= i <= a.len(), i <= b.len(), forall|k: int| 0 <= k < i ==> eqv(#[trigger] a[k], b[k]),
+    ensures id_cmp(a, b) == id_cmp(a.skip(i), b.skip(i)),
+    decreases i,
+{
+    if i == 0 { assert(a.skip(0) =~= a); assert(b.skip(0) =~= b); }
+    else {
+        assert(eqv(a[0], b[0]));
+        let a1 = a.drop_first(); let b1 = b.drop_first();
+        assert forall|k: int| 0 <= k < i - 1 implies eqv(#[trigger] a1[k], b1[k]) by { assert(a1[k] == a[k + 1] && b1[k] == b[k + 1]); assert(eqv(a[k + 1], b[k + 1])); }
+        lemma_cmp_skip(a1, b1, i - 1);
+        assert(a1.skip(i - 1) =~= a.skip(i)); assert(b1.skip(i - 1) =~= b.skip(i));
+    }
+}
+pub proof fn lemma_decided<T: Ord>(a: Seq<(BigRational, T)>, b: Seq<(BigRational, T)>, d: int)
+    requires decided_less(a, b, d),
+    ensures id_cmp(a, b) == Ordering::Less,
+{
+    lemma_cmp_skip(a, b, d);
+    assert(a.skip(d)[0] == a[d] && b.skip(d)[0] == b[d]);
+}
+/// a path that extends another (up to node equivalence) sorts before it
+pub proof fn lemma_longer<T: Ord>(a: Seq<(BigRational, T)>, b: Seq<(BigRational, T)>)
+    requires node_ok::<T>(), b.len() < a.len(), forall|k: int| 0 <= k < b.len() ==> eqv(#[trigger] a[k], b[k]),
+    ensures id_cmp(a, b) == Ordering::Less, id_cmp(b, a) == Ordering::Greater,
+{
+    lemma_ord_ok::<(BigRational, T)>();
+    lemma_cmp_skip(a, b, b.len() as int);
+    assert(b.skip(b.len() as int).len() == 0 && a.skip(b.len() as int).len() > 0);
+    assert forall|k: int| 0 <= k < b.len() implies eqv(#[trigger] b[k], a[k]) by { assert(eqv(a[k], b[k])); }
+    lemma_cmp_skip(b, a, b.len() as int);
+}
+/// with an equivalent prefix and low < high, low's next node is not greater than high's
+pub proof fn lemma_common_prefix_le<T: Ord>(lo: Seq<(BigRational, T)>, hi: Seq<(BigRational, T)>, i: int)
+    requires id_cmp(lo, hi) == Ordering::Less, 0 <= i < lo.len(), i < hi.len(), forall|k: int| 0 <= k < i ==> eqv(#[trigger] lo[k], hi[k]),
+    ensures !gt(lo[i], hi[i]),
+{
+    lemma_cmp_skip(lo, hi, i);
+    assert(lo.skip(i)[0] == lo[i] && hi.skip(i)[0] == hi[i]);
+}
+/// the fork: agreeing before i, the new node strictly between the two nodes at i
+pub proof fn lemma_fork<T: Ord + Clone>(lo: Seq<(BigRational, T)>, hi: Seq<(BigRational, T)>, p: Seq<(BigRational, T)>, i: int)
+    requires between_ok::<T>(), p.len() == i + 1, 0 <= i < lo.len(), i < hi.len(), lt(lo[i], p[i]), lt(p[i], hi[i]),
+        forall|k: int| 0 <= k < i ==> #[trigger] p[k] == hi[k], forall|k: int| 0 <= k < i ==> eqv(#[trigger] lo[k], hi[k]),
+    ensures id_cmp(lo, p) == Ordering::Less, id_cmp(p, hi) == Ordering::Less,
+{
+    assert(decided_less(lo, p, i)) by { assert forall|k: int| 0 <= k < i implies eqv(#[trigger] lo[k], p[k]) by { assert(p[k] == hi[k]); } }
+    assert(decided_less(p, hi, i)) by { assert forall|k: int| 0 <= k < i implies eqv(#[trigger] p[k], hi[k]) by { assert(p[k] == hi[k]); } }
+    lemma_decided(lo, p, i); lemma_decided(p, hi, i);
+}
+
+/// the walk ends in the catch-all arm: one of the paths is exhausted, or the rationals at position i differ
+pub proof fn lemma_second_arm<T: Ord + Clone>(lo: Seq<(BigRational, T)>, hi: Seq<(BigRational, T)>, mk: T, p: Seq<(BigRational, T)>, i: int, div: bool, d: int,
+        ln: Option<(BigRational, T)>, hn: Option<(BigRational, T)>)
+    requires between_ok::<T>(), id_cmp(lo, hi) == Ordering::Less, p.len() == i + 1, 0 <= i <= hi.len(), p[i].1 == mk,
+        forall|k: int| 0 <= k < i ==> #[trigger] p[k] == hi[k],
+        !div ==> i <= lo.len() && forall|k: int| 0 <= k < i ==> eqv(#[trigger] lo[k], hi[k]),
+        div ==> 0 <= d < i && decided_less(lo, p, d),
+        ln is Some <==> (!div && i < lo.len()), ln is Some ==> ln->0 == lo[i],
+        hn is Some <==> i < hi.len(), hn is Some ==> hn->0 == hi[i],
+        ln is Some && hn is Some ==> (ln->0).0 != (hn->0).0,
+        ln is Some && hn is None ==> rat_cmp(lo[i].0, p[i].0) == Ordering::Less,
+        ln is None && hn is Some ==> rat_cmp(p[i].0, hi[i].0) == Ordering::Less,
+        ln is Some && hn is Some && rat_cmp(lo[i].0, hi[i].0) == Ordering::Less ==> rat_cmp(lo[i].0, p[i].0) == Ordering::Less && rat_cmp(p[i].0, hi[i].0) == Ordering::Less,
+    ensures between_two(lo, hi, mk, p),
+{
+    axiom_rational_order(); lemma_ord_ok::<T>(); lemma_ord_ok::<(BigRational, T)>(); lemma_ord_ok::<BigRational>();
+    assert(p.last() == p[i]);
+    assert forall|k: int| 0 <= k < i implies eqv(#[trigger] p[k], hi[k]) by { assert(p[k] == hi[k]); }
+    if ln is Some && hn is Some {
+        lemma_common_prefix_le(lo, hi, i);
+        lemma_node_cmp(lo[i], hi[i]); lemma_node_cmp(lo[i], p[i]); lemma_node_cmp(p[i], hi[i]);
+        assert(rat_cmp(lo[i].0, hi[i].0) != Ordering::Equal);
+        assert(rat_cmp(lo[i].0, hi[i].0) == Ordering::Less);
+        lemma_fork(lo, hi, p, i);
+    } else if ln is Some {
+        // high is exhausted: the result extends high
+        lemma_node_cmp(lo[i], p[i]);
+        assert(decided_less(lo, p, i)) by { assert forall|k: int| 0 <= k < i implies eqv(#[trigger] lo[k], p[k]) by { assert(p[k] == hi[k]); } }
+        lemma_decided(lo, p, i);
+        lemma_longer(p, hi);
+    } else if hn is Some {
+        if !div { lemma_longer(hi, lo); assert(false); }
+        lemma_decided(lo, p, d);
+        lemma_node_cmp(p[i], hi[i]);
+        assert(decided_less(p, hi, i));
+        lemma_decided(p, hi, i);
+    } else {
+        if !div { lemma_cmp_skip(lo, hi, i); assert(lo.skip(i).len() == 0 && hi.skip(i).len() == 0); assert(false); }
+        lemma_decided(lo, p, d);
+        lemma_longer(p, hi);
+    }
+}
+
+/// at most one bound: a single node beyond the bound's first rational
+pub proof fn lemma_one_bound<T: Ord + Clone>(low: Option<&Identifier<T>>, high: Option<&Identifier<T>>, mk: T, r: Seq<(BigRational, T)>)
+    requires between_ok::<T>(), !(low is Some && high is Some), r.len() == 1, r[0].1 == mk,
+        low is Some && low->0@.len() > 0 && high is None ==> rat_cmp(low->0@[0].0, r[0].0) == Ordering::Less,
+        low is None && high is Some && high->0@.len() > 0 ==> rat_cmp(r[0].0, high->0@[0].0) == Ordering::Less,
+    ensures
+        low is Some && low->0@.len() > 0 && high is None ==> id_cmp(low->0@, r) == Ordering::Less,
+        low is None && high is Some && high->0@.len() > 0 ==> id_cmp(r, high->0@) == Ordering::Less,
+        r.len() > 0 && r.last().1 == mk,
+{
+    if low is Some && low->0@.len() > 0 && high is None { lemma_node_cmp(low->0@[0], r[0]); assert(decided_less(low->0@, r, 0)); lemma_decided(low->0@, r, 0); }
+    if low is None && high is Some && high->0@.len() > 0 { lemma_node_cmp(r[0], high->0@[0]); assert(decided_less(r, high->0@, 0)); lemma_decided(r, high->0@, 0); }
+}
+
+/// usage hypotheses of `between`: lawful orders on markers and nodes, `==` on markers reflexive, markers clone to equal values
+pub open spec fn between_ok<T: Ord + Clone>() -> bool {
+    node_ok::<T>() && clone_ok::<T>() && T::obeys_eq_spec() && T::obeys_partial_cmp_spec() && (forall|x: (BigRational, T)| #[trigger] x.cmp_spec(&x) == Ordering::Equal)
+}
+
+/// C14 density, the contract of `between`: strictly between two distinct bounds (in either argument order), strictly beyond
+/// a single non-empty bound, and -- unless both bounds are the same identifier -- ending in the given marker
+pub open spec fn between_post<T: Ord>(low: Option<&Identifier<T>>, high: Option<&Identifier<T>>, marker: T, r: Identifier<T>) -> bool {
+    &&& (low is Some && high is Some && id_cmp(low->0@, high->0@) == Ordering::Less ==> id_cmp(low->0@, r@) == Ordering::Less && id_cmp(r@, high->0@) == Ordering::Less)
+    &&& (low is Some && high is Some && id_cmp(low->0@, high->0@) == Ordering::Greater ==> id_cmp(high->0@, r@) == Ordering::Less && id_cmp(r@, low->0@) == Ordering::Less)
+    &&& (low is Some && low->0@.len() > 0 && high is None ==> id_cmp(low->0@, r@) == Ordering::Less)
+    &&& (low is None && high is Some && high->0@.len() > 0 ==> id_cmp(r@, high->0@) == Ordering::Less)
+    &&& (!(low is Some && high is Some && id_cmp(low->0@, high->0@) == Ordering::Equal) ==> r@.len() > 0 && r@.last().1 == marker)
+}
+/// the result of the two-bound walk
+pub open spec fn between_two<T: Ord>(lo: Seq<(BigRational, T)>, hi: Seq<(BigRational, T)>, mk: T, p: Seq<(BigRational, T)>) -> bool {
+    id_cmp(lo, p) == Ordering::Less && id_cmp(p, hi) == Ordering::Less && p.len() > 0 && p.last().1 == mk
+}
+/// a and b agree (up to node equivalence) before position d, and a's node at d is smaller: a < b whatever follows
+pub open spec fn decided_less<T: Ord>(a: Seq<(BigRational, T)>, b: Seq<(BigRational, T)>, d: int) -> bool {
+    0 <= d < a.len() && d < b.len() && lt(a[d], b[d]) && forall|k: int| 0 <= k < d ==> eqv(#[trigger] a[k], b[k])
 }
 
 // ------------------------------------------------------------------------------------------------
